@@ -217,9 +217,9 @@ func (burstComp) Exec(op string) (string, string, string, bool) {
 }
 
 func (burstComp) Gen(r *Rand, tier string, emit func(string)) {
-	emit("tcp 3000 300")
+	emit("tcp 8000 300")
 	emit("tcp 400 40000")
-	emit("ws 1500 300")
+	emit("ws 4000 300")
 	if tier == "thorough" {
 		emit("tcp 30000 300")
 		emit("tcp 3000 100000")
